@@ -284,7 +284,7 @@ struct RegisterState {
         }
 
     private:
-        u16 rni, rnj, stepi, stepj, offseti, offsetj;
+        u16 rni = 0, rnj = 0, stepi = 0, stepj = 0, offseti = 0, offsetj = 0;
     };
 
     template <unsigned index>
@@ -300,7 +300,7 @@ struct RegisterState {
         }
 
     private:
-        u16 rni, rnj, stepi, stepj, offseti, offsetj;
+        u16 rni = 0, rnj = 0, stepi = 0, stepj = 0, offseti = 0, offsetj = 0;
     };
 
     ShadowSwapAr<0> shadow_swap_ar0;
